@@ -398,15 +398,21 @@ class Array(AbstractValueWithQuantityObject, Generic[ValuesType]):
         from ._value_generator import _ValueGenerator
 
         # get the quantities and setup the value generator properly
+        # Note: as for a Scalar, a plain number keeps the quantity of the array as it is (including
+        # an unknown-unit caption); only number / array results in a new (reciprocal) quantity.
+        kept_quantity = None
         if IsNumber(p1) or isinstance(p1, numpy.ndarray):
             values_iteration = _ValueGenerator(p1, p2.values)
             q2 = p2.GetQuantity()
             q1 = Quantity.CreateEmpty()
+            if operation not in ["Divide", "FloorDivide"]:
+                kept_quantity = q2
 
         elif IsNumber(p2) or isinstance(p2, numpy.ndarray):
             values_iteration = _ValueGenerator(p1.values, p2)
             q1 = p1.GetQuantity()
             q2 = Quantity.CreateEmpty()
+            kept_quantity = q1
 
         else:
             try:
@@ -430,6 +436,8 @@ class Array(AbstractValueWithQuantityObject, Generic[ValuesType]):
         if values_iteration.IsNumpy():
             v0, v1 = next(iter(values_iteration))
             q, v = operation_func(q1, q2, v0, v1)
+            if kept_quantity is not None:
+                q = kept_quantity
             return self.__class__.CreateWithQuantity(q, v)  # type:ignore[return-value]
         else:
             # not numpy: create a new structure to hold the values
@@ -443,4 +451,6 @@ class Array(AbstractValueWithQuantityObject, Generic[ValuesType]):
 
             if values_iteration.IsTuple():
                 result = tuple(result)  # type:ignore[assignment]
+            if kept_quantity is not None:
+                q = kept_quantity
             return self.__class__.CreateWithQuantity(q, result)  # type:ignore[return-value]
